@@ -45,7 +45,15 @@ type Op struct {
 	Raw   jsontext.Value // WriteValue
 	Label string
 	Read  byte // decoder side: 'T' ReadToken, 'V' ReadValue, 'S' SkipValue
+	// Delegate: call json.MarshalEncode(e, Inner{}) / json.UnmarshalDecode(d, &Inner{}), i.e. a nested user call
+	Delegate bool
 }
+
+// Inner is a value whose own MarshalJSONTo / UnmarshalJSONFrom handles exactly one value.
+type Inner struct{}
+
+func (Inner) MarshalJSONTo(e *jsontext.Encoder) error      { return e.WriteToken(jsontext.String("inner")) }
+func (*Inner) UnmarshalJSONFrom(d *jsontext.Decoder) error { return d.SkipValue() }
 
 // Script is the behaviour of a coder-taking method or function.
 type Script struct {
@@ -88,7 +96,9 @@ func (s *Script) RunEnc(e *jsontext.Encoder) error {
 	s.CoderErr = nil
 	for _, op := range s.Ops {
 		var err error
-		if op.Raw != nil {
+		if op.Delegate {
+			err = json.MarshalEncode(e, Inner{})
+		} else if op.Raw != nil {
 			err = e.WriteValue(op.Raw)
 		} else {
 			err = e.WriteToken(op.Tok)
@@ -110,6 +120,9 @@ func (s *Script) RunDec(d *jsontext.Decoder) error {
 	s.CoderErr = nil
 	for _, op := range s.Ops {
 		var err error
+		if op.Delegate {
+			err = json.UnmarshalDecode(d, new(Inner))
+		}
 		switch op.Read {
 		case 'T':
 			_, err = d.ReadToken()
